@@ -25,17 +25,64 @@ Proof.
   all: try (intros X; repeat match type of X with context [match ?x with _ => _ end] => destruct x; try discriminate end; auto).
 Qed.
 
-Lemma stepd_quit : forall s lb s', InvD s -> lstep s lb = Some s' ->
+Lemma stepd_quit : forall s lb s', InvE s -> InvD s -> lstep s lb = Some s' ->
   mquit (pc (th s' 0)) = false -> forall c, helper c ->
     qa (th s' c) = (-1)%Z /\ (forall m, In m (qu s' c) -> is_quitmsg m = false) /\
     pcquit (pc (th s' c)) = false.
 Proof.
-  intros s lb s' D H Hm c Hc.
+  intros s lb s' I D H Hm c Hc.
   assert (Hm0 : mquit (pc (th s 0)) = false).
   { destruct (mquit (pc (th s 0))) eqn:E; auto. rewrite (mquit_absorb s lb s' H E) in Hm. discriminate. }
   pose proof (d_quit _ _ D Hm0) as Q. pose proof (helper_ne0d c Hc) as Hc0.
   destruct (Q c Hc) as (Q1 & Q2 & Q3).
-  step_inv_fine H; crunch; use_eqs; cbn [pcquit mquit] in *; auto; try discriminate.
+  step_inv_fine H.
+  (* facts about the acting helper *)
+  all: try match goal with Hl : Nat.leb (S ?t) N = true |- _ =>
+         destruct (Q (S t) (helper_leb _ _ Hl)) as (T1 & T2 & T3) end.
+  all: try match goal with Hq : qu _ (S ?t) = ?m :: _ |- _ =>
+         pose proof (T2 m) as T4; rewrite Hq in T4; specialize (T4 (or_introl eq_refl)); cbn in T4 end.
+  all: try match goal with Hpc : pc (th _ (S ?t)) = _ |- _ => rewrite Hpc in T3; cbn in T3 end.
+  all: try discriminate.
+  all: try pcs_facts I.
+  all: try match goal with w : fwd |- _ => destruct w end; cbn [fwd_purge fwd_cmd] in *; try discriminate.
+  all: try (phase_facts' I; crunch; cbn [mquit] in Hm; discriminate).
+  all: crunch; use_eqs; cbn [pcquit mquit] in *; auto; try discriminate.
+  all: repeat split; auto; try discriminate; try lia.
+  all: try (intros m Hin; try (apply in_app_or in Hin; destruct Hin as [Hin|[<-|[]]]);
+            try (apply in_purge in Hin; destruct Hin as (Hin & _)); auto; try reflexivity;
+            try (apply Q2; auto; right; auto; fail)).
+Qed.
+
+Lemma stepd_round : forall s lb s', InvE s -> InvD s -> lstep s lb = Some s' ->
+  forall c, helper c -> se (th s' c) = S (ae (th s' c)) ->
+    self (th s' c) = true \/ (0 < wc (th s' c))%Z \/ sendack (pc (th s' c)) = true.
+Proof.
+  intros s lb s' I D H c Hc.
+  pose proof (d_round _ _ D c Hc) as R. pose proof (helper_ne0d c Hc) as Hc0.
+  pose proof (e_w1 _ _ _ I c (helper_le _ _ Hc)) as W1.
+  pose proof (e_g2 _ _ _ I c Hc) as G2.
+  step_inv_fine H; crunch; use_eqs; cbn [sendack] in *; auto.
+  all: intros E; boolfacts; auto.
+  all: try lia.
+  all: try (destruct (R ltac:(lia)) as [R1|[R1|R1]]; auto; try congruence; try discriminate; try lia; fail).
+  all: try match goal with X : _ && _ = false |- _ => apply andb_false_iff in X; destruct X as [X|X]; boolfacts end.
+  all: try (ack_facts I; right; left; lia).
+  all: try (left; assumption).
+  all: try (pcs_facts I; fail).
+Qed.
+
+Lemma stepd_m : forall s lb s', InvE s -> InvD s -> lstep s lb = Some s' ->
+  ((pc (th s' 0) = PPoll KAck \/ pc (th s' 0) = PWait KAck) -> self (th s' 0) = false) /\
+  (pc (th s' 0) = PWait KAck -> wc (th s' 0) <> 0%Z).
+Proof.
+  intros s lb s' I D H.
+  pose proof (d_mself _ _ D) as M1. pose proof (d_mwait _ _ D) as M2.
+  step_inv_fine H; crunch; use_eqs; auto.
+  all: split; try (intros [E|E]; try discriminate; auto); try (intros E; try discriminate; auto).
+  all: boolfacts; auto.
+  all: try (rewrite (M1 (or_introl eq_refl)) in *; apply andb_false_iff in Heqb; destruct Heqb as [X|X];
+            [apply Z.eqb_neq in X; auto | discriminate]).
+  all: try (phase_facts' I; cbn in *; auto; try discriminate; fail).
   Show.
 Abort.
 End P.
